@@ -13,7 +13,8 @@ THEOREMS = ["Facto.C11_fold_add", "Facto.C11_fold_sub", "Facto.C11_fold_mul", "F
             "Facto.C11_fold_le", "Facto.C11_fold_ge", "Facto.C11_fold_eq", "Facto.C11_fold_ne",
             "Facto.C11_opt_add", "Facto.C11_opt_sub", "Facto.C11_opt_mul", "Facto.C11_opt_and", "Facto.C11_opt_or", "Facto.C11_opt_xor",
             "Facto.C11_opt_shl", "Facto.C11_opt_shr", "Facto.C11_opt_div_partial", "Facto.C11_opt_div_not_total",
-            "Facto.C11_opt_cmp_lt", "Facto.C11_opt_cmp_gt", "Facto.C11_opt_cmp_eq", "Facto.C11_opt_cmp_ne"]
+            "Facto.C11_opt_cmp_lt", "Facto.C11_opt_cmp_gt", "Facto.C11_opt_cmp_eq", "Facto.C11_opt_cmp_ne",
+            "Facto.constVal_sound", "Facto.scalar_end_to_end"]
 
 
 def in_domain(q):
